@@ -90,6 +90,10 @@ Proof. by rewrite -(big_mkord xpredT F) /index_iota subn0 sum_iota. Qed.
 (* ---------------- the interface: determinant of the n x n matrix (F i j), i, j < n ---------------- *)
 Definition detF (n : nat) (F : nat -> nat -> R) : R := (\det (\matrix_(i < n, j < n) F i j))%R.
 
+Lemma detF_is_det : forall (n : nat) (F : nat -> nat -> R),
+  detF n F = (\det (\matrix_(i < n, j < n) F i j))%R.
+Proof. by []. Qed.
+
 Lemma detF_ext n F G : (forall i j, (i < n)%coq_nat -> (j < n)%coq_nat -> F i j = G i j) ->
   detF n F = detF n G.
 Proof.
@@ -139,6 +143,27 @@ Proof.
     by case: (i == j).
   rewrite det_rank1_update !mxE -(sum_ord_seq n (fun i => v i * u i)).
   congr (_ + _)%R. apply: eq_bigr => i _; by rewrite !mxE.
+Qed.
+
+
+(* block-diagonal matrices (Concatenate / Stack / Vmap: the Jacobian is block diagonal): det_ublock *)
+Definition blockF (n1 : nat) (A B : nat -> nat -> R) : nat -> nat -> R :=
+  fun i j => if (i <? n1)%coq_nat then (if (j <? n1)%coq_nat then A i j else 0)
+             else (if (j <? n1)%coq_nat then 0 else B (i - n1)%coq_nat (j - n1)%coq_nat).
+Lemma ltb_ord n (i : 'I_n) : (i <? n)%coq_nat = true.
+Proof. apply/Nat.ltb_spec0/ltP. exact: ltn_ord. Qed.
+Lemma ltb_shift n k : (n + k <? n)%coq_nat = false.
+Proof. apply/Nat.ltb_spec0 => /ltP. by rewrite ltnNge leq_addr. Qed.
+Theorem detF_block_diag n1 n2 A B : detF (n1 + n2) (blockF n1 A B) = detF n1 A * detF n2 B.
+Proof.
+  rewrite /detF.
+  have -> : (\matrix_(i < n1 + n2, j < n1 + n2) blockF n1 A B i j)%R
+          = block_mx (\matrix_(i < n1, j < n1) A i j)%R 0%R 0%R (\matrix_(i < n2, j < n2) B i j)%R.
+    apply/matrixP => i j; rewrite -[i]splitK -[j]splitK.
+    case: (split i) => i'; case: (split j) => j' /=;
+      rewrite ?block_mxEul ?block_mxEur ?block_mxEdl ?block_mxEdr !mxE /blockF /= ?ltb_ord ?ltb_shift //.
+    by rewrite !minusE !addKn.
+  by rewrite det_ublock.
 Qed.
 
 Lemma detF_0 F : detF 0 F = 1.
